@@ -8,25 +8,26 @@ import sys
 sys.path.insert(0, '/verif')
 MARK = " Functions under contract on the current tree (generated from contracts/): "
 ADDED = {
-    "C01": "Later additions: Parameters.self_or_cls and get_param_descriptor (which object / which Parameter an update and a class-level assignment go through), constructors leave unspecified slots Undefined; an unchecked ListSelector accepts every list and admits each unknown object once; class-level assignment and Parameters._update carried.",
-    "C02": "Later additions: Dynamic.__set__ (a generator/callable value is stored only after validation), Parameters._update (exceptional frame of the batch route: flags restored, queued events of the failed call dropped), the C08/C10 link clauses of the setter on the raising paths.",
-    "C03": "Later additions: Parameters._update (every accepted change of a multi-parameter update is announced by the time the call returns or raises), the public batching managers and trigger (queue order, no event lost), Comparator probes, and the clause that a class-level copy of an inherited Parameter shares the watcher table of the Parameter it was copied from.",
-    "C04": "Later additions: Parameters.self_or_cls; the quick tier of the C17 bounded layer is carried for batches on copies; the quick tier of the C03 bounded layer is carried for update/batch contexts opened inside watchers, trigger re-assigns exactly the value values() reports (union-dict model), coalescing through the _update_event_type callee contract, the flush probe.",
+    "C16": "Later additions (eighth round): selector_schema / objectselector_schema / listselector_schema for 0-3 arbitrary JSON-literal objects (enum and anyOf per object), list_schema (no item class, literal item classes, safe=True refusal); the serialize hooks of Number/Integer/String/Boolean carried from C15 (the serialized form is the value itself); probe for text schemas and non-finite numbers.",
+    "C01": "Later additions: Parameters.self_or_cls and get_param_descriptor (which object / which Parameter an update and a class-level assignment go through), constructors leave unspecified slots Undefined; an unchecked ListSelector accepts every list and admits each unknown object once; class-level assignment and Parameters._update carried. Eighth round: probes for hex colours on non-ASCII digits and for constraints tightened on an ancestor after the lower classes were used; the metaclass __setattr__ contract models the naming of an assigned Parameter object (/repo fix 6bd8429).",
+    "C02": "Later additions: Dynamic.__set__ (a generator/callable value is stored only after validation), Parameters._update (exceptional frame of the batch route: flags restored, queued events of the failed call dropped), the C08/C10 link clauses of the setter on the raising paths. Eighth round: Event.__set__ (an Event that refuses a value keeps the state it was in) carried from C05.",
+    "C03": "Later additions: Parameters._update (every accepted change of a multi-parameter update is announced by the time the call returns or raises), the public batching managers and trigger (queue order, no event lost), Comparator probes, and the clause that a class-level copy of an inherited Parameter shares the watcher table of the Parameter it was copied from. Eighth round: Parameters._execute_watcher (one invocation; a Skip raised by the callback never reaches the dispatcher) carried from C04.",
+    "C04": "Later additions: Parameters.self_or_cls; the quick tier of the C17 bounded layer is carried for batches on copies; the quick tier of the C03 bounded layer is carried for update/batch contexts opened inside watchers, trigger re-assigns exactly the value values() reports (union-dict model), coalescing through the _update_event_type callee contract, the flush probe. Eighth round: Parameters._execute_watcher under contract (mode args), with a scenario probe over plain set / batch / update / trigger.",
     "C06": "Later additions: the quick tier of the C17 bounded layer is carried for watch=True methods on copies, the metaclass dependency table (block contract in ParameterizedMetaclass.__init__: inherited entries kept unless overridden), one iteration of _update_deps, _sync_caller, the dispatcher contracts and Parameters._update.",
     "C07": "Later additions: the dispatch loop of Parameter.__set__ (every watcher of the snapshot is called, carried from C03), one iteration of Parameters._update_deps (old sub-object watchers removed before the new ones are installed, for any number of watchers), _sync_caller, dispatcher contracts.",
-    "C08": "Later additions: _update_ref unwatches through the namespace of the object the watcher was registered on (its instance unless None, whatever its truth value), _syncing (the set of names being synced is swapped and restored on every exit), Parameters.update (links handed to the restorer for mapping and keywords alike), resolve_value on lists of any length (every item resolved; recursive call by contract; assumption A-RV), the constructor link clause, and the probe on bind's generated dependency keywords.",
+    "C08": "Later additions: _update_ref unwatches through the namespace of the object the watcher was registered on (its instance unless None, whatever its truth value), _syncing (the set of names being synced is swapped and restored on every exit), Parameters.update (links handed to the restorer for mapping and keywords alike), resolve_value on lists of any length (every item resolved; recursive call by contract; assumption A-RV), the constructor link clause, and the probe on bind's generated dependency keywords. Eighth round: Parameters._sync_refs for two and three links and one event (delivered <=> depends on the changed parameter and the reference yields a value; a Skip leaves only its own link alone; own nested_refs flag; one update).",
     "C09": "Later additions: Comparator.compare_iterator/compare_mapping (a genuine change of a container value is never suppressed; carried from C03), resolve_value on lists of any length (every item is resolve_value(item); a container handed back as it is must contain only items that resolve to themselves, assumption A-RV).",
-    "C10": "Later additions: the constructor link clause of _setup_params (a reference without parameter dependencies is still recorded), _syncing restores on exceptions.",
+    "C10": "Later additions: the constructor link clause of _setup_params (a reference without parameter dependencies is still recorded), _syncing restores on exceptions. Eighth round: probe on a real event loop for pipe(coroutine, reactive argument) over one or two updates and every completion order.",
     "C11": "Later additions: Parameter.__init__ and five constructors (what a declaration leaves unspecified stays Undefined), add_parameter, the re-validation and type-change blocks of __param_inheritance, and the block installing the merged slot values (an inherited mutable container is the Parameter's own copy before _update_state may mutate it).",
-    "C12": "Later additions: Parameters.self_or_cls (the instance whenever there is one, whatever its truth value), get_param_descriptor, _instantiate_param (deep copy whatever the outer type), the metaclass __setattr__ copy-on-write, the class parameter table, and the slot-installation block of __param_inheritance (no crosstalk with the ancestor's containers).",
+    "C12": "Later additions: Parameters.self_or_cls (the instance whenever there is one, whatever its truth value), get_param_descriptor, _instantiate_param (deep copy whatever the outer type), the metaclass __setattr__ copy-on-write, the class parameter table, and the slot-installation block of __param_inheritance (no crosstalk with the ancestor's containers). Eighth round: block contract on Parameterized.__init__ (initialized on every exit) carried from C14.",
     "C13": "Later additions: get_param_descriptor (the nearest declaring class of an arbitrary class list), the metaclass __setattr__ slot-copying loop, get_value_generator for Dynamic parameters, the class parameter table and its cache clearing, add_parameter.",
-    "C14": "Later additions: the class-level route (metaclass __setattr__: every plain value reaches the descriptor exactly once; get_param_descriptor), edit_constant (every flag restored on every exit, for any number of parameters), Parameters.__getitem__ (instance-level copy keeps constant/readonly), Parameter.__init__ (readonly implies constant), the setter's link clauses.",
+    "C14": "Later additions: the class-level route (metaclass __setattr__: every plain value reaches the descriptor exactly once; get_param_descriptor), edit_constant (every flag restored on every exit, for any number of parameters), Parameters.__getitem__ (instance-level copy keeps constant/readonly), Parameter.__init__ (readonly implies constant), the setter's link clauses. Eighth round: block contract on Parameterized.__init__ (the object is marked initialized on every exit, whichever constructor step fails); Parameters._sync_refs carried from C08 (the only writer of a linked constant goes through edit_constant); probe: constants stay pinned on instances made inside shared_parameters() and on copies.",
     "C15": "Later additions: the four object loops of serialize/deserialize_parameters (every parameter visited once, no value lost), get_value_generator.",
-    "C05": "Later additions: Event.__set__ (the event is reset exactly once on every exit, whatever exception type the inherited setter or a watcher raises), the quick tier of the C07 bounded layer is carried for failing watch=True methods (a raising method leaves the dynamic watchers re-registered).",
+    "C05": "Later additions: Event.__set__ (the event is reset exactly once on every exit, whatever exception type the inherited setter or a watcher raises), the quick tier of the C07 bounded layer is carried for failing watch=True methods (a raising method leaves the dynamic watchers re-registered). Eighth round: Parameters._sync_refs (the delivery of a source value runs inside edit_constant and _syncing) carried from C08; probe: after an update that fails at any of its keys every Event of the call is off and self-resetting.",
     "C17": "Later additions: the _InstancePrivate round trip from an ARBITRARY dispatch state of the original (the copy starts idle), the tail of Parameterized.__setstate__ (every pickled slot restored, watchers re-created with all fields), Parameterized.__getstate__ (fresh containers, nothing shared with the live object).",
-    "C18": "Later additions: ghost-handle variants (a stale ListProxy handle), unnamed objects admitted by unchecked Selectors, the Selector validators.",
-    "C19": "Later additions: the failing-generator path, _state_push/_state_pop pairing, get_value_generator.",
-    "C20": "Later additions: Comparator, get_value_generator, the class parameter table and clear_cache, and the probe on explicit names that extend an auto-generated name.",
+    "C18": "Later additions: ghost-handle variants (a stale ListProxy handle), unnamed objects admitted by unchecked Selectors, the Selector validators. Eighth round: ListProxy.update (pairs), insert at positions counted from the end, refused mutations (absent object, unknown key, position out of range) raise, change nothing and announce nothing.",
+    "C19": "Later additions: the failing-generator path, _state_push/_state_pop pairing, get_value_generator. Eighth round: Dynamic.__get__ and Dynamic._force through to _produce_value; probe: numbergen generators at the corner values of their parameters.",
+    "C20": "Later additions: Comparator, get_value_generator, the class parameter table and clear_cache, and the probe on explicit names that extend an auto-generated name. Eighth round: probe for constructors with keyword-only arguments (known finding C20-b04).",
 }
 m = json.load(open('/verif/MANIFEST.json'))
 known = json.load(open('/verif/known_findings.json'))
@@ -37,7 +38,7 @@ for c in m['checks']:
     names = sorted({x.name.split('[')[0].strip() for x in cs})
     probes = [n for n, _ in getattr(mod, 'PROBES', [])] + sorted({x.name.split('[')[0] for x in cs if x.static_replay})
     t = c['level_claimed']['text']
-    for mark in (MARK, " Later additions: "):
+    for mark in (MARK, " Later additions: ", " Later additions (eighth round): ", " Eighth round: "):
         if mark in t:
             t = t[:t.index(mark)]
     t = t.rstrip()
